@@ -103,3 +103,14 @@ Example C07_example :
   let q := {| q_method := bs "MKCOL"; q_url := u "a.test"%string; q_hdr := [] |} in
   map fst (w_store (snd (run None (round_trip q) w))) = [bs "http://b.test/x"].
 Proof. vm_compute. reflexivity. Qed.
+
+(* ---------- tie to the source: the part of the model this property rests on is what /verif/translate derives from
+   /repo's Go source on this run (Generated/*.v are rewritten before every build; see DESIGN.md section 9) ---------- *)
+From HC.Generated Require Import SrcTables.
+From HC.Proofs Require Import TieTables.
+Theorem C07_source_tables :
+  (forall m, src_is_unsafe_method m = is_unsafe_method m) /\
+  (forall s, src_is_non_error_status s = is_non_error_status s) /\
+  src_location_headers = location_headers.
+Proof. split; [exact tie_is_unsafe_method|split; [exact tie_is_non_error_status|exact tie_location_headers]]. Qed.
+Print Assumptions C07_source_tables.
